@@ -346,6 +346,84 @@ func suiteConcurrent(c *Ctx) error {
 		}
 	}
 
+	// ---- a rebuild of a LARGE store (more than one chunk) racing with a writer that keeps replacing a
+	// signature near the end of the key space: once both are done the indexes must describe the final
+	// records only (an index entry of a superseded version next to the final record is exactly the
+	// pairing a scan must never see) ----
+	{
+		rr := r.Fork()
+		tA := genTopo(rr)
+		tA.CallSignatures = map[string]int{"net.Dial": 1}
+		tA.EntropyScore = 3
+		tA.FuzzyHash = topology.GenerateFuzzyHash(tA)
+		tB := cloneTopo(tA)
+		tB.InstrCount += 2
+		tB.FuzzyHash = topology.GenerateFuzzyHash(tB)
+		sA := detection.IndexFunction(tA, "alpha", "", "HIGH", "m")
+		sB := detection.IndexFunction(tB, "beta", "", "HIGH", "m")
+		sA.ID, sB.ID = "ZZZ-FLIP", "ZZZ-FLIP"
+		dir := filepath.Join(c.Work, "conc-bigrebuild")
+		ps, err := pebbledb.NewPebbleScanner(dir, pebbledb.PebbleScannerOptions{MatchThreshold: 0.5, EntropyTolerance: 0.5})
+		if err != nil {
+			return err
+		}
+		var fill []*detection.Signature
+		for i := 0; i < 1100; i++ {
+			fill = append(fill, &detection.Signature{ID: fmt.Sprintf("FILL-%05d", i), Name: "fill", Severity: "LOW",
+				TopologyHash: fmt.Sprintf("FILLTOPO-%d", i), FuzzyHash: fmt.Sprintf("FF-%d", i%50), EntropyScore: 6})
+		}
+		if err := ps.AddSignatures(fill); err != nil {
+			ps.Close()
+			return err
+		}
+		ps.AddSignature(&sA)
+		rounds := 8
+		if c.Tier == "thorough" {
+			rounds = 60
+		}
+		cur := "alpha"
+		for k := 0; k < rounds; k++ {
+			done := make(chan error, 1)
+			go func() { done <- ps.RebuildIndexes() }()
+			// ONE replacement, issued while the rebuild is running (it queues on the store's lock and gets
+			// in wherever the rebuild lets go of it); nothing is written afterwards that could heal a
+			// stale entry
+			if k == 0 {
+				cur = "alpha"
+			}
+			time.Sleep(time.Duration(k%3) * 300 * time.Microsecond)
+			last := "beta"
+			if cur == "beta" {
+				ps.AddSignature(&sA)
+				last = "alpha"
+			} else {
+				ps.AddSignature(&sB)
+			}
+			cur = last
+			writes := 1
+			<-done
+			c.Res.Evaluations++
+			c.Count("big_rebuild_rounds")
+			c.CountN("big_rebuild_concurrent_writes", writes)
+			staleProbe, staleName := tB, "beta"
+			if last == "beta" {
+				staleProbe, staleName = tA, "alpha"
+			}
+			a, _ := ps.ScanTopologyExact(staleProbe, "f")
+			st, _ := ps.Stats()
+			ids, _ := ps.ListSignatureIDs()
+			switch {
+			case a != nil && a.SignatureID == "ZZZ-FLIP":
+				c.Violate("C11", "C11/stale-index-entry-after-concurrent-rebuild", fmt.Sprintf("round %d: the store holds ZZZ-FLIP@%s, but the probe of the superseded version %s is answered by ZZZ-FLIP (%q, confidence %.3f): a rebuild that ran next to %d writes left an index entry of the old version", k, last, staleName, a.SignatureName, a.Confidence, writes),
+					map[string]interface{}{"records": len(ids), "final_version": last, "writes_during_rebuild": writes, "alert": a})
+			case st != nil && st.TopoIndexCount != len(ids):
+				c.Violate("C11", "C11/stale-index-entry-after-concurrent-rebuild", fmt.Sprintf("round %d: %d topology index entries for %d records after a rebuild that ran next to %d writes", k, st.TopoIndexCount, len(ids), writes),
+					map[string]interface{}{"records": len(ids), "final_version": last, "writes_during_rebuild": writes})
+			}
+		}
+		ps.Close()
+	}
+
 	// ---- threshold / tolerance setters racing with scans (race detector + each result is the scan
 	// at one of the two settings) ----
 	{
